@@ -131,6 +131,7 @@ def run(prop, seed, budget, ctx):
     rnd = random.Random(seed * 31 + sum(map(ord, prop))); pool = Pool(); g = Gen(rnd, pool, None)
     g.kinds = g.kinds + ["sequence", "aggregate", "tuple_union", "reqopt", "optenum1"]
     types = [g.ty(3) for _ in range(300 * budget)]
+    types += [g.g_keyconv(1) for _ in range(12 * budget)]       # mappings with converted keys, at the root: values built independently of deserialize
     mod = build_module(pool.source(), f"{prop}_{seed}"); ns = dict(vars(mod))
     reqs, meta, failures, hist, distinct, samples = [], [], [], collections.Counter(), set(), []
     for t in types:
@@ -148,6 +149,14 @@ def run(prop, seed, budget, ctx):
             o = {"ap": so["ap"], "fbod": False, "nc": rnd.random() < 0.5, "octor": False, "coerce": False, "repaired": True}
             try: v = deserialize(tp, fresh(d), additional_properties=o["ap"], no_copy=o["nc"])
             except Exception: hist["datum-not-accepted"] += 1; continue
+            typed_mismatch = None
+            if hasattr(t, "typed"):
+                # the value is built from the datum without the library; what deserialize returns must be that value (with
+                # either value of no_copy)
+                tv = t.typed(ns, d)
+                if not (v == tv and all(type(a) is type(b) for a, b in zip(sorted(map(repr, v)), sorted(map(repr, tv)))) and {type(k) for k in v} == {type(k) for k in tv}):
+                    typed_mismatch = repr(v)[:200]
+                v = tv
             try:
                 s = serialize(tp, v, exclude_none=so["exclude_none"], exclude_defaults=so["exclude_defaults"], additional_properties=so["ap"])
                 r = {"ok": canon_out(t, py_proto(s))}
@@ -155,6 +164,7 @@ def run(prop, seed, budget, ctx):
             why = []
             case = {"py": t.py, "src": t.decls(), "ty": t.lean, "features": sorted(t.features()), "d": py_proto(d), "d_repr": repr(d),
                     "sopts": so, "opts": o, "impl": r}
+            if typed_mismatch is not None: why.append("deserialized-value-is-not-the-typed-image-of-the-datum"); case["deserialized"] = typed_mismatch
             if t.kind not in Gen.LEAVES: distinct.add(case_hash(t.lean, py_proto(d), so))
             for f in t.features(): hist["ty:" + f] += 1
             if len(samples) < 5 and t.kind not in Gen.LEAVES and len(repr(d)) < 100: samples.append({"type": t.py, "datum": repr(d), "sopts": so, "serialized": repr(s)[:200]})
@@ -215,7 +225,7 @@ def run(prop, seed, budget, ctx):
         if mo is not None and "error" not in mo and "ok" in mo.get("model", {}) and mo.get("ser") is not None:
             m = mo["ser"]
             # (extra keys of a TypedDict alternative of a union under additional_properties: not in the model of serialization)
-            unmodelled = ("aggregate" in case["features"]) or (case["sopts"]["ap"] and "typeddict" in case["features"] and ({"union", "optional"} & set(case["features"])))
+            unmodelled = ("aggregate" in case["features"]) or ("stdkey" in case["features"]) or (case["sopts"]["ap"] and "typeddict" in case["features"] and ({"union", "optional"} & set(case["features"])))
             if not str(m.get("crash", "")).startswith("ModelScope") and not unmodelled:
                 if "ok" in m: m = {"ok": canon_out(t, m["ok"])}
                 kcmp += 1
